@@ -1,7 +1,8 @@
 --------------------------------- MODULE OpfObs ---------------------------------
 (* C16 / C17, implementation level.  One case = one configuration of Opf.tla instantiated as a pandapower net         *)
 (* (from Inst(cfg), see OpfInst.tla) and run through runopp (cfg.ac) or rundcopp, with the documented solver options   *)
-(* of cfg.opts ("tight": OPF_VIOLATION = PDIPM_GRADTOL = PDIPM_COMPTOL = 1e-9, PDIPM_COSTTOL = 1e-10).                   *)
+(* of cfg.opts ("tight": OPF_VIOLATION = PDIPM_GRADTOL = PDIPM_COMPTOL = 1e-8, PDIPM_COSTTOL = 1e-9; with 1e-9 PIPS     *)
+(* gives up on most cases in which the slack power is free of charge).                                                 *)
 (* Observations (fixed point, micro-units; NaN sentinel where a DC result has no value):                               *)
 (*   o.conv, o.err        OPF_converged / exception class                                                              *)
 (*   o.vm, o.va           res_bus.vm_pu, va_degree of buses 0..3                                                       *)
@@ -24,22 +25,23 @@ Cfg == C.cfg
 O == C.o
 
 (* Tolerances.  PIPS stops when  max(|g|_inf, max h) / (1 + max(|x|_inf, |z|_inf)) < PDIPM_FEASTOL (= OPF_VIOLATION,  *)
-(* default 5e-6; pypower/pips.py:  feascond).  baseMVA = net.sn_mva = 1, so powers in p.u. are MW numbers; x holds     *)
+(* default 5e-6; pypower/pips.py:331 feascond).  baseMVA = net.sn_mva = 1, so powers in p.u. are MW numbers; x holds     *)
 (* powers up to 10, and z the slacks of the inequality constraints, the largest being those of the branch flow limits,  *)
 (* which are stated on SQUARED MVA: up to Smax^2 = 400.  A converged result may therefore miss any single constraint    *)
-(* (a bound on p, q, vm, a nodal balance) by 5e-6*401 = 2e-3 (MW, Mvar, p.u.) with default options and by 4e-7 with the   *)
+(* (a bound on p, q, vm, a nodal balance) by 5e-6*401 = 2e-3 (MW, Mvar, p.u.) with default options and by 4e-6 with the   *)
 (* tightened ones -- that is "the OPF tolerance" of the property.  TolLim adds a margin resp. the fixed-point resolution. *)
 (* Flow limits: S^2 - Smax^2 <= 2e-3 with Smax >= 4 MVA is a loading excess below 0.007 %.                                 *)
+(* DC OPF: the flow limits are linear (|z| <= 2*20), 5e-6*41 = 2e-4; the LP / QP is in fact solved to ~1e-8.              *)
 (* The sharp check is the one with tightened options (smallest effect looked for: 1e-3 MW resp. 1 EUR).                   *)
 Tight == Cfg.opts = "tight"
-TolLim == IF Tight THEN 5 ELSE 2500                \* micro MW / Mvar / p.u.
+TolLim == IF Tight THEN 10 ELSE IF Cfg.ac THEN 2500 ELSE 300      \* micro MW / Mvar / p.u.
 TolLoad == IF Tight THEN 100 ELSE 10000            \* micro percent
 TolSet == 2                                        \* copied set points: representation error only
 \* power flow replay: the nodal residuals of the OPF solution (<= 2e-3 MW per bus and equation, 4 buses) reappear at the
 \* slack and in the PV reactive powers; a flow difference of 1e-2 MVA is 0.05 % of the 20 MVA rating.
-\* tight options: the Fix default for two independent solves (30 micro + 20 ppm)
-TolPf == IF Tight THEN 30 ELSE 10000
-TolPfLoad == IF Tight THEN 300 ELSE 100000
+\* tight options: 4 x 4e-6 = 16 micro, below the Fix default for two independent solves (30 micro + 20 ppm)
+TolPf == IF Tight THEN 30 ELSE IF Cfg.ac THEN 10000 ELSE 1000
+TolPfLoad == IF Tight THEN 300 ELSE IF Cfg.ac THEN 100000 ELSE 10000
 \* res_cost against the user's function at the SAME result powers: identical polynomials, so only rounding -- except
 \* pwl rows, whose cost is an auxiliary variable held above the segment lines to the complementarity tolerance
 TolCost == IF Tight THEN 100 ELSE 2000             \* micro EUR
@@ -63,8 +65,8 @@ C16_FixedSetpoints ==
     /\ \A e \in PQ : ~Cfg.ctrl[e] => /\ Within(O.p[e], El(e).pset * M, El(e).pset * M, TolSet)
                                      /\ (Cfg.ac => Within(O.q[e], El(e).qset * M, El(e).qset * M, TolSet))
     /\ Within(O.basep, BaseP * M, BaseP * M, TolSet) /\ (Cfg.ac => Within(O.baseq, BaseQ * M, BaseQ * M, TolSet))
-    \* a non-controllable gen keeps p_mw and vm_pu (build_gen.py:190-207), a non-controllable ext_grid its vm_pu
-    \* (build_gen.py:128-141); the reference angle is the ext_grid's va_degree = 0
+    \* a non-controllable gen keeps p_mw and vm_pu (build_gen.py:183-201), a non-controllable ext_grid its vm_pu
+    \* (build_gen.py:125-137); the reference angle is the ext_grid's va_degree = 0
     /\ (~Cfg.ctrl["gen"] => /\ Within(O.p["gen"], El("gen").pset * M, El("gen").pset * M, TolLim)
                             /\ (Cfg.ac => Within(O.genvm, El("gen").vset, El("gen").vset, TolLim)))
     /\ ((Cfg.ac /\ ~Cfg.egc) => Within(O.vm[1], El("ext_grid").vset, El("ext_grid").vset, TolLim))
@@ -110,6 +112,34 @@ C17_ReportedCostIsOptimum ==
      LET opt == GridOpt(Cfg)
      IN  opt # NoOpt => IF GridExact(Cfg) THEN Close(O.cost, opt * M, TolOpt, 100)
                         ELSE (IsNum(O.cost) /\ O.cost <= opt * M + TolOpt + Abs(opt) * 100)
+
+-----------------------------------------------------------------------------
+(* Conformance of the TRANSCRIBED code with the implementation (I -> S).  A failure is a divergence -- the transcription  *)
+(* in OpfDef (CodeRowP / CodeRowQ, dcline constraint) no longer describes the tree under test, e.g. after a proposed fix   *)
+(* was applied without setting the TreeHas... flag -- and never a violation of C16 / C17.                                 *)
+CodeRowMicro(row, e, p, q) ==
+  LET s == IF Inverted(e) THEN -1 ELSE 1
+      se == IF TreeHasC17_1 THEN 1 ELSE s
+      sq == IF e \in {"load", "storage"} THEN -1 ELSE 1
+      seq == IF TreeHasC17_1 THEN 1 ELSE sq
+  IN  IF row.kind = "poly"
+      THEN (IF AnyPwl(Cfg) THEN row.c1 * p + (IF TreeHasC17_2 THEN row.c0 * M ELSE 0)
+            ELSE row.c2 * se * SqMicro(p) + row.c1 * p + row.c0 * se * M)
+           + (IF row.q2 # 0 \/ row.q1 # 0 \/ row.q0 # 0 THEN row.q2 * seq * SqMicro(q) + row.q1 * q + row.q0 * seq * M ELSE 0)
+      \* pwl rows: the transcribed function equals the user's on every generated row (Opf!PwlTranscriptionAgrees)
+      ELSE IF row.kind = "pwl" THEN PwlAt(row.pts, p, M) ELSE 0
+CodeOf(e) == CodeRowMicro(Row(e), e, O.p[e], O.q[e])
+CodeCostMicro == CodeOf("ext_grid") + CodeOf("gen") + CodeOf("sgen") + CodeOf("load") + CodeOf("storage") + CodeOf("dcline")
+Conf_CodeObjective == (O.conv /\ PowersAreNumbers) => Close(O.cost, CodeCostMicro, TolCost, 20)
+\* dcline constraint of the OPF (optimal_powerflow.py:105-129), cross-multiplied by 100 + loss_percent resp. 100:
+\*   unchanged tree: (100 + lp) * p_to = -100 * (p_from - loss)        with C16_1: 100 * p_to = -((100 - lp) * p_from - 100 * loss)
+Conf_DclineLaw ==
+  (O.conv /\ Has("dcline")) =>
+     LET lp == DclLossPercent(Cfg.dcl)
+         loss == DclLossKw(Cfg.dcl) * 1000
+         pf == O.p["dcline"]
+     IN  IF TreeHasC16_1 THEN Abs(100 * O.pto + (100 - lp) * pf - 100 * loss) <= 100 * TolLim
+         ELSE Abs((100 + lp) * O.pto + 100 * (pf - loss)) <= (100 + lp) * TolLim
 
 -----------------------------------------------------------------------------
 (* Harness self-check (a failure is a machinery error, not a finding): the element tables of the built net carry       *)
